@@ -1,12 +1,17 @@
 //! vx — bounded-exhaustive explorers for string_calculator (see /verif/DESIGN.md).
 mod alpha;
+mod cchecks;
 mod checks;
 mod ctx;
 mod dom;
 mod etok;
+mod etree;
 mod fam;
+mod fchecks;
+mod nchecks;
 mod report;
 mod sut;
+mod tchecks;
 
 use ctx::*;
 use dom::*;
@@ -145,9 +150,9 @@ fn main() {
                 prop: prop.clone(),
                 tier,
                 profile,
-                root,
+                root: root.clone(),
                 evidence_path: evidence,
-                rec: report::Recorder::new(64),
+                rec: report::Recorder::new(64, &prop, report::load_known(&format!("{}/known_findings.json", root))),
                 runs: Default::default(),
                 total: Default::default(),
                 t0: std::time::Instant::now(),
